@@ -33,6 +33,8 @@ func checkC16(c *Ctx) {
 	c.Rule("R16.5", "the console encoder's Clone carries context bytes, configuration, spacing and the open-namespace count (the context it later renders is the JSON encoder's)", 2)
 	c7CloneCarries(c, "R16.5")
 	c.Rule("R16.4", "optional column encoders are nil-guarded", 6)
+	c.Rule("R16.9", "every built-in level/time/duration/caller/name encoder appends exactly one element on every path (one column; in JSON the one value of its key)", 15)
+	c16BuiltinEncodersAppendOnce(c, "R16.9")
 	c.Rule("R16.8", "the column collector stores what it is given as values of its own: bytes as a string copy, nested values in fresh containers (a view of a sub-encoder's scratch buffer would be rewritten by the next column before the line is printed)", 20)
 	c.As(map[string]string{"R2.3": "R16.8"}, func() { c2Reference(c) })
 	c.Rule("R16.7", "the pooled column encoder (and every other pooled object) is not used, and nothing that points into its storage is returned, after it went back to its pool", 8)
@@ -753,4 +755,75 @@ func jsonStepWrapper(h *ssa.Function, d int) bool {
 		}
 	}
 	return false
+}
+
+// c16BuiltinEncodersAppendOnce: every built-in sub-encoder of zapcore (level, time, duration, caller and name
+// encoders: the exported functions whose last parameter is a PrimitiveArrayEncoder) appends exactly one element on
+// every path, also where one of them delegates to another. The console encoder turns each appended element into a
+// column; the JSON encoder writes it as the value of the key it has just written: a second element is a stray
+// column there and invalid JSON here, a missing one a key without a value.
+func c16BuiltinEncodersAppendOnce(c *Ctx, rule string) {
+	isBuiltin := func(f *ssa.Function) bool {
+		if f == nil || f.Pkg == nil || f.Pkg.Pkg.Path() != CorePath || f.Parent() != nil || f.Signature.Recv() != nil || f.Signature.Results().Len() != 0 || len(f.Params) != 2 || len(f.Blocks) == 0 {
+			return false
+		}
+		return strings.HasSuffix(TypeName(f.Params[1].Type()), "zapcore.PrimitiveArrayEncoder")
+	}
+	n := 0
+	c.EachRootFunc(func(fn *ssa.Function) {
+		if !isBuiltin(fn) || !token.IsExported(fn.Name()) {
+			return
+		}
+		n++
+		enc := fn.Params[1]
+		resolve := func(st *ConcState, v ssa.Value) ssa.Value {
+			for k := 0; k < 16; k++ {
+				switch x := v.(type) {
+				case *ssa.ChangeInterface:
+					v = x.X
+					continue
+				case *ssa.MakeInterface:
+					v = x.X
+					continue
+				case *ssa.TypeAssert:
+					v = x.X
+					continue
+				case *ssa.Extract:
+					if ta, ok := x.Tuple.(*ssa.TypeAssert); ok && x.Index == 0 {
+						v = ta.X
+						continue
+					}
+				}
+				nx := st.Step(v)
+				if nx == nil {
+					break
+				}
+				v = nx
+			}
+			return v
+		}
+		seqs, trunc := ConcPaths(fn, ConcCfg{
+			InlineAny: isBuiltin,
+			Event: func(in ssa.Instruction, st *ConcState) string {
+				x, ok := in.(*ssa.Call)
+				if !ok || !x.Call.IsInvoke() || !strings.HasPrefix(x.Call.Method.Name(), "Append") {
+					return ""
+				}
+				if resolve(st, x.Call.Value) == ssa.Value(enc) {
+					return "a"
+				}
+				return ""
+			},
+		})
+		var bad []string
+		for _, sq := range seqs {
+			if sq != "a" {
+				bad = append(bad, "["+sq+"]")
+			}
+		}
+		c.Check(!trunc && len(seqs) > 0 && len(bad) == 0, rule, FStr(fn), "appends-exactly-once", fn.Pos(), "on every path (delegation to another built-in encoder inline) exactly one element is appended: %v", uniqSorted(bad))
+	})
+	if n < 15 {
+		c.Bad(rule, "built-in sub-encoders", "count", token.NoPos, "expected at least 15 built-in encoders, found %d", n)
+	}
 }
